@@ -1,0 +1,11 @@
+//go:build verif
+
+package utils
+
+// Contracts read by the verification engine in /verif (govc). Comment-only file.
+//
+//@ func ConvertLabelSelector
+//@   trusted
+//@   modifies nothing
+//@ func MergeResult
+//@   transparent
